@@ -36,6 +36,7 @@
 #include <unifex/variant_sender.hpp>
 #include <unifex/with_allocator.hpp>
 #include <unifex/repeat_effect_until.hpp>
+#include <unifex/sync_wait.hpp>
 #include <unifex/when_all.hpp>
 #include <unifex/when_all_range.hpp>
 #if defined(__cpp_impl_coroutine)  // (the header includes the coroutine machinery unconditionally: C++20 configurations only)
@@ -144,6 +145,7 @@ struct World {
   volatile int root_done = 0;
   bool free_in_completion = true;
   int root_token_kind = 0;  // 0 inplace, 1 sim_stop_token
+  int root_mode = 0;        // 1: the expression is consumed by unifex::sync_wait() on the starting thread (param syncw=1)
   unifex::inplace_stop_source* root_inplace = nullptr;
   kit::sim_stop_source* root_sim = nullptr;
   int root_ctx = 0;
@@ -323,7 +325,8 @@ void check_async_trace(const R& r, LeafRec* rc) {
   bool root = false;
   for (auto& e : trace) {
     if (e.continuation.type() == unifex::type_id<kit::ex::bridge>()) ++bridges;
-    if (e.continuation.type() == unifex::type_id<root_rcv<unifex::inplace_stop_token>>() || e.continuation.type() == unifex::type_id<root_rcv<kit::sim_stop_token>>()) root = true;
+    if (e.continuation.type() == unifex::type_id<root_rcv<unifex::inplace_stop_token>>() || e.continuation.type() == unifex::type_id<root_rcv<kit::sim_stop_token>>() ||
+        e.continuation.type() == unifex::type_id<unifex::_sync_wait::receiver_t<Val>>()) root = true;
   }
   KIT_CHECK(root, "c20.async-trace", "async_trace from leaf %d (%zu entries, %d harness erasure points seen, %d expected) never reaches the root receiver: some receiver on the path does not report its continuation",
             rc->leaf, trace.size(), bridges, depth + 1);
@@ -1312,6 +1315,36 @@ void run_expr(World* w) {
     { usim::np_scope np; w->ext_stop_end = seq(); }
   }
   bool connected = true;
+  if (w->root_mode == 1) {
+    // sync_wait(): connect, start and the wait for the result all happen inside; the result comes back as
+    // optional<Val> (value / done) or as a rethrown exception (error - or a connect() that threw)
+    int ch = CH_NONE;
+    long payload = 0;
+    { usim::np_scope np; w->root_start_seq = seq(); }
+    try {
+      std::optional<Val> r = unifex::sync_wait(any_snd{w->nodes[w->root].impl});
+      if (r) { ch = CH_VALUE; payload = r->get(); } else ch = CH_DONE;
+    } catch (...) {
+      ch = CH_ERROR;
+      payload = error_code(std::current_exception());
+    }
+    {
+      usim::np_scope np;
+      bool root_started = false;
+      for (auto* t : w->taps) if (t->node == w->root && t->started) root_started = true;
+      if (!root_started && ch == CH_ERROR) { w->root_start_seq = 0; usim_probe("sync_wait: connect threw"); }  // never started: the exception came out of connect()
+      else {
+        w->root_completions = 1;
+        w->root_channel = ch;
+        w->root_payload = payload;
+        w->root_done_seq = w->root_done_exit = seq();
+        w->root_done_thread = std::this_thread::get_id();
+        usim_probe("sync_wait returned the root's result");
+      }
+    }
+    w->root_done = 1;
+    goto join_helpers;
+  }
   if (w->alloc_fault) { w->alloc_window_open = true; usim_alloc_fault_window(1); }
   try {
     box->construct_with([&] { return unifex::connect(any_snd{w->nodes[w->root].impl}, R{w}); });
@@ -1331,6 +1364,7 @@ void run_expr(World* w) {
   } else {
     w->root_done = 1;
   }
+  join_helpers:
   for (int a = 0; a < kMaxActors; ++a) actors[a].join();
   stopper.join();
 #ifndef NDEBUG
@@ -1375,7 +1409,15 @@ void body_expr(void*) {
   }
   if (draw(3) == 0) usim_fault_rate(USIM_F_CAS_WEAK, 100);
   if (draw(4) == 0) usim_fault_rate(USIM_F_COND_SPURIOUS, 100);
-  if (usim_param_int("alloc", 0) && draw(2) == 0) { w->alloc_fault = true; usim_fault_rate(USIM_F_ALLOC, 60 + 60 * draw(4)); }
+  if (usim_param_int("syncw", 0) && draw(3) == 0) {
+    w->root_mode = 1;
+    w->root_token_kind = 0;
+    w->ext_stop_mode = 0;         // sync_wait's receiver has no stop token
+    w->root_tag = -1;             // ... answers no custom query,
+    w->root_ctx = -2;             // ... offers its own manual_event_loop's scheduler
+    w->root_alloc = -1;           // ... and no allocator
+  }
+  if (w->root_mode == 0 && usim_param_int("alloc", 0) && draw(2) == 0) { w->alloc_fault = true; usim_fault_rate(USIM_F_ALLOC, 60 + 60 * draw(4)); }
   if (usim_param_int("alloc", 0) && draw(8) == 0) {
     // a user connect() that throws directly below a let_value_with_stop_source (connected inside its noexcept connect())
     for (int i = 0; i < w->nnodes; ++i)
@@ -1385,7 +1427,7 @@ void body_expr(void*) {
     usim::np_scope np;
     char buf[900];
     int o = describe(w, w->root, buf, 760);
-    snprintf(buf + o, sizeof buf - o, " | root: tok=%s ctx=%d free_in_completion=%d ext_stop=%d/%d copy_throw=%d", w->root_token_kind ? "sim" : "inplace",
+    snprintf(buf + o, sizeof buf - o, " | root: %stok=%s ctx=%d free_in_completion=%d ext_stop=%d/%d copy_throw=%d", w->root_mode ? "sync_wait " : "", w->root_token_kind ? "sim" : "inplace",
              w->root_ctx, (int)w->free_in_completion, w->ext_stop_mode, w->ext_stop_yields, w->val_copy_throw_at);
     usim_sample("%s", buf);
   }
